@@ -98,7 +98,11 @@ struct CowT {
 }  // namespace cowh
 
 #define std vstd
-#define private public  // harness-side only: lets final() read the state without events
+#ifndef VS_NO_PEEK
+#define private public  // harness-side only: lets final() read the state without events, and the driver register the two
+                        // shared_ptr objects of the inner lr_guarded with the wrapper.  VS_NO_PEEK (search after a change
+                        // that renames a field): no final-state line, the two objects stay silent
+#endif
 #include "gmlc/libguarded/cow_guarded.hpp"
 #undef private
 #undef std
@@ -116,14 +120,20 @@ struct CowImpl {
     std::vector<std::vector<std::optional<WH>>> ws;  // destroyed before cow
     std::vector<std::vector<SH>> ss;
     std::list<WH> grave;  // cancelled (null) handles, destroyed with the component
+    std::vector<long> nops;  // operations issued so far, per thread
     int nw, ns;
     CowImpl(size_t nthreads, int nw_, int ns_, long init): cow(init), nw(nw_), ns(ns_)
     {
         ws.resize(nthreads);
         for (auto& s : ws) s.resize((size_t)nw);
         ss.resize(nthreads);
+        nops.assign(nthreads, 0);
         for (auto& s : ss) s.resize((size_t)ns);
+#ifndef VS_NO_PEEK
         vs::cowslots().reset(&cow.m_data.m_left, &cow.m_data.m_right);
+#else
+        vs::cowslots().reset(nullptr, nullptr);
+#endif
     }
     long op(int tid, const std::vector<long>& o)
     {
@@ -131,6 +141,7 @@ struct CowImpl {
         const long b = o.size() > 2 ? o[2] : 0;
         const long k = o[0];
         auto& W = ws[(size_t)tid];
+        const bool via_get = (nops[(size_t)tid]++ % 2) == 1;
         auto& S = ss[(size_t)tid];
         if (k == 17) {
             if (a < 0 || a >= nw || !W[(size_t)a]) return -1;
@@ -154,9 +165,12 @@ struct CowImpl {
                 // 1..3 (try_lock / try_lock_for / try_lock_until) cannot be driven: those three members do not
                 // compile for any T, Mutex (`return handle();` needs a default-constructible deleter)
                 // a slot may hold a NULL handle object (moved-from): it cannot be dereferenced
-                case 4: if (!h || !*h) return -1; (*h)->touch(); (*h)->p.write(b); return 0;
-                case 5: if (!h || !*h) return -1; (*h)->touch(); (*h)->p.incr(); return 0;
-                case 6: if (!h || !*h) return -1; (*h)->touch(); return (*h)->p.read();
+                // Access path to the private copy: every other operation of a thread (by its running count, so that the
+                // model need not know) goes through the inherited unique_ptr::get() instead of the handle's operator->
+                // - both are legal ways for a client to modify the copy.
+                case 4: if (!h || !*h) return -1; { cowh::CowT* q = via_get ? h->get() : &**h; q->touch(); q->p.write(b); } return 0;
+                case 5: if (!h || !*h) return -1; { cowh::CowT* q = via_get ? h->get() : &**h; q->touch(); q->p.incr(); } return 0;
+                case 6: if (!h || !*h) return -1; { const cowh::CowT* q = h->get(); q->touch(); return q->p.read(); }
                 case 7: if (!h) return -1; h.reset(); return 0;
                 case 8:
                     // cancel(); the (now null) handle object itself stays alive until the end of the case, as a client's
@@ -215,12 +229,19 @@ struct CowImpl {
     }
     void final(std::vector<std::vector<long>>& out)
     {
+#ifndef VS_NO_PEEK
         auto& d = cow.m_data;
         out.push_back({d.m_left->p.peek(), d.m_right->p.peek(), (long)d.m_readingLeft.vs_peek(),
                        (long)d.m_countingLeft.vs_peek(), (long)d.m_leftReadCount.vs_peek(),
                        (long)d.m_rightReadCount.vs_peek(), (long)(cow.m_writeMutex.owner != -1),
                        (long)(d.m_writeMutex.owner != -1), cowh::ledger().created, cowh::ledger().destroyed,
                        vs::plan().faults});
+        // the range of the inner reader counters (the model's are unbounded; it assumes int: CowModel.COUNTER_MAX)
+        out.push_back({(long)std::numeric_limits<decltype(d.m_leftReadCount.vs_peek())>::max(),
+                       (long)std::numeric_limits<decltype(d.m_rightReadCount.vs_peek())>::max()});
+#else
+        (void)out;
+#endif
     }
 };
 
